@@ -100,6 +100,21 @@ func c14(c *Ctx) {
 				cs = append(cs, buildtags.Constraint{buildtags.Option{buildtags.Term(term)}})
 			}
 		}
+		if j == 7 || j == 8 || (j > 8 && len(cs) > 0 && rng.Chance(12)) {
+			// the same constraint line more than once (legal, and what concatenating tag lists produces)
+			if j == 7 {
+				cs = buildtags.Constraints{{{"amd64"}}, {{"!purego"}}, {{"amd64"}}}
+			} else if j == 8 {
+				cs = buildtags.Constraints{{{"linux", "amd64"}, {"darwin"}}, {{"linux", "amd64"}, {"darwin"}}, {{"!appengine"}}, {{"!appengine"}}}
+			} else {
+				src := cs[rng.Intn(len(cs))]
+				var cp buildtags.Constraint
+				for _, op := range src {
+					cp = append(cp, append(buildtags.Option(nil), op...))
+				}
+				cs = append(cs, cp)
+			}
+		}
 		names := map[string]bool{}
 		var csCoq []string
 		var descParts []string
@@ -222,7 +237,13 @@ func c14(c *Ctx) {
 
 		// the real toolchain: lines avo's printers emit (buildtags.Format) parsed by go/build/constraint
 		if valid && len(cs) > 0 {
+			before := fmt.Sprintf("%#v", cs)
+			fileCopy := deepCopyConstraints(cs)
 			hdr, err := buildtags.Format(cs)
+			if after := fmt.Sprintf("%#v", cs); after != before {
+				o.Plan.GoViolations = append(o.Plan.GoViolations, GoViolation{Key: "tags:format-changes-its-argument", Desc: fmt.Sprintf("case %d: buildtags.Format changed the constraint set it was asked to format: %s became %s (the assembly and the stub printer format the same file one after the other)", idx, before, after), Replay: map[string]any{"constraints": desc}})
+				cs = deepCopyConstraints(fileCopy)
+			}
 			if err != nil {
 				o.Plan.GoViolations = append(o.Plan.GoViolations, GoViolation{Key: "tags:format-error", Desc: fmt.Sprintf("case %d: constraint set accepted by avo is rejected by go/format: %v: %q", idx, err, desc), Replay: map[string]any{"constraints": desc}})
 				continue
@@ -264,7 +285,7 @@ func c14(c *Ctx) {
 			// file matching for every assignment
 			if nfiles < maxFiles {
 				nfiles++
-				fileLevelConstraints(c, o, idx, cs, desc, asgs)
+				fileLevelConstraints(c, o, idx, deepCopyConstraints(fileCopy), desc, asgs)
 			}
 			// parsing avo's textual form gives back the same constraint
 			for _, cn := range cs {
@@ -366,6 +387,18 @@ func c14(c *Ctx) {
 	o.Plan.Stats["code_points_validity_disagreements"] = disagree
 	o.Plan.Stats["exhaustive_code_points"] = true
 	o.Plan.Stats["extra_evaluations"] = 1112064
+}
+
+func deepCopyConstraints(cs buildtags.Constraints) buildtags.Constraints {
+	var out buildtags.Constraints
+	for _, cn := range cs {
+		var cp buildtags.Constraint
+		for _, op := range cn {
+			cp = append(cp, append(buildtags.Option(nil), op...))
+		}
+		out = append(out, cp)
+	}
+	return out
 }
 
 func hasEmptyC(c buildtags.Constraint) bool {
